@@ -718,7 +718,7 @@ def _array_extreme_nd(cx, arr, is_max):
         inside = z3.And(*[z3.And(i >= 0, i < d) for i, d in zip(idx, dims)])
         return z3.Implies(inside, V.to_z3(fn(*idx)) <= m if is_max else V.to_z3(fn(*idx)) >= m)
 
-    cx.univ.append(UnivFact(len(dims), body, sources=[arr]))
+    cx.univ.append(UnivFact(len(dims), body, sources=[arr], generic=False))  # instantiated where the array is read
     return m
 
 
